@@ -331,3 +331,121 @@ func E(za, msg []byte) []byte {
 	d := sm3ref.Sum(append(append([]byte{}, za...), msg...))
 	return d[:]
 }
+
+// LiftY returns a curve point with the given y coordinate, if any: a root x of the cubic x^3 + a*x + (b - y^2) mod p, found with
+// gcd(f, X^p - X) (polynomials of degree <= 2 modulo f) and, if several roots remain, equal-degree splitting. About two thirds of
+// all y have a point. Used to construct points whose Y coordinate has a chosen (word-structured) value.
+func LiftY(y *big.Int) (Point, bool) {
+	c := new(big.Int).Mul(y, y)
+	c.Sub(B, c)
+	modp(c)
+	// f = X^3 + A*X + c. Polynomials are [3]*big.Int (coefficients of 1, X, X^2), reduced modulo f with X^3 = -A*X - c.
+	mul := func(u, v [3]*big.Int) [3]*big.Int {
+		var t [5]*big.Int
+		for i := range t {
+			t[i] = new(big.Int)
+		}
+		for i := 0; i < 3; i++ {
+			for j := 0; j < 3; j++ {
+				t[i+j].Add(t[i+j], new(big.Int).Mul(u[i], v[j]))
+			}
+		}
+		for d := 4; d >= 3; d-- { // X^d = X^(d-3) * (-A*X - c)
+			t[d].Mod(t[d], P)
+			t[d-2].Sub(t[d-2], new(big.Int).Mul(t[d], A))
+			t[d-3].Sub(t[d-3], new(big.Int).Mul(t[d], c))
+		}
+		return [3]*big.Int{modp(t[0]), modp(t[1]), modp(t[2])}
+	}
+	pow := func(base [3]*big.Int, e *big.Int) [3]*big.Int {
+		r := [3]*big.Int{big.NewInt(1), big.NewInt(0), big.NewInt(0)}
+		for i := e.BitLen() - 1; i >= 0; i-- {
+			r = mul(r, r)
+			if e.Bit(i) == 1 {
+				r = mul(r, base)
+			}
+		}
+		return r
+	}
+	// roots of the cubic that are roots of g (degree <= 2) as well: gcd by hand
+	var try func(g [3]*big.Int, depth int) (*big.Int, bool)
+	evalF := func(x *big.Int) bool {
+		v := new(big.Int).Mul(x, x)
+		v.Mul(v, x).Add(v, new(big.Int).Mul(A, x)).Add(v, c)
+		return modp(v).Sign() == 0
+	}
+	try = func(g [3]*big.Int, depth int) (*big.Int, bool) {
+		switch {
+		case g[2].Sign() != 0:
+			// quadratic g: its roots by the formula (p = 3 mod 4 square root); check them against f
+			inv2a := new(big.Int).ModInverse(new(big.Int).Lsh(g[2], 1), P)
+			disc := new(big.Int).Mul(g[1], g[1])
+			disc.Sub(disc, new(big.Int).Mul(new(big.Int).Lsh(g[2], 2), g[0]))
+			modp(disc)
+			s, ok := SqrtP(disc)
+			if !ok {
+				return nil, false
+			}
+			for _, sg := range []*big.Int{s, new(big.Int).Neg(s)} {
+				x := new(big.Int).Sub(sg, g[1])
+				x.Mul(x, inv2a)
+				modp(x)
+				if evalF(x) {
+					return x, true
+				}
+			}
+			return nil, false
+		case g[1].Sign() != 0:
+			x := new(big.Int).Neg(g[0])
+			x.Mul(x, new(big.Int).ModInverse(g[1], P))
+			modp(x)
+			if evalF(x) {
+				return x, true
+			}
+			return nil, false
+		}
+		return nil, false
+	}
+	X := [3]*big.Int{big.NewInt(0), big.NewInt(1), big.NewInt(0)}
+	xp := pow(X, P) // X^p mod f
+	g := [3]*big.Int{xp[0], modp(new(big.Int).Sub(xp[1], one)), xp[2]}
+	if g[0].Sign() == 0 && g[1].Sign() == 0 && g[2].Sign() == 0 {
+		// f splits completely (three roots): split with (X+a)^((p-1)/2) - 1 for small a
+		e := new(big.Int).Rsh(new(big.Int).Sub(P, one), 1)
+		for a := int64(1); a < 40; a++ {
+			h := pow([3]*big.Int{big.NewInt(a), big.NewInt(1), big.NewInt(0)}, e)
+			h[0] = modp(new(big.Int).Sub(h[0], one))
+			if x, ok := try(h, 1); ok {
+				return Point{X: x, Y: new(big.Int).Mod(y, P)}, true
+			}
+		}
+		return Point{}, false
+	}
+	// g = X^p - X mod f has degree <= 2; the common roots of f and g are the roots of f in the field. Reduce f modulo g first when
+	// g is quadratic (so that exactly the common roots remain), otherwise use g directly.
+	if g[2].Sign() != 0 {
+		// f mod g: f = X^3 + A X + c, eliminate with monic g
+		inv := new(big.Int).ModInverse(g[2], P)
+		g1, g0 := modp(new(big.Int).Mul(g[1], inv)), modp(new(big.Int).Mul(g[0], inv)) // X^2 = -g1 X - g0
+		// X^3 = X*X^2 = -g1 X^2 - g0 X = -g1(-g1 X - g0) - g0 X = (g1^2 - g0) X + g1 g0
+		r1 := new(big.Int).Mul(g1, g1)
+		r1.Sub(r1, g0).Add(r1, A)
+		r0 := new(big.Int).Mul(g1, g0)
+		r0.Add(r0, c)
+		rem := [3]*big.Int{modp(r0), modp(r1), big.NewInt(0)}
+		if rem[0].Sign() == 0 && rem[1].Sign() == 0 {
+			if x, ok := try(g, 0); ok { // g divides f: both roots of g are roots of f
+				return Point{X: x, Y: new(big.Int).Mod(y, P)}, true
+			}
+			return Point{}, false
+		}
+		if x, ok := try(rem, 0); ok {
+			return Point{X: x, Y: new(big.Int).Mod(y, P)}, true
+		}
+		return Point{}, false
+	}
+	if x, ok := try(g, 0); ok {
+		return Point{X: x, Y: new(big.Int).Mod(y, P)}, true
+	}
+	return Point{}, false
+}
